@@ -407,10 +407,21 @@ func genTables(r *Rng) *tablesCase {
 				continue
 			}
 			k := Pick(r, []string{"type", "gtype", "iface", "alias", "type", "gtype"})
+			if r.Chance(10) && !used["_Ctype_int"] {
+				nm = Pick(r, []string{"_Ctype_int", "_Ctype_struct_x", "_T"})
+				if used[nm] {
+					continue
+				}
+			}
 			used[nm], declared[nm] = true, k
 			c.Decls = append(c.Decls, LDecl{Kind: k, Name: nm})
 		case 3:
 			nm := "K" + Pick(r, names)
+			if r.Chance(15) {
+				// names that look like what a tool would have generated (cgo's mangling prefixes, a leading underscore): declared
+				// by hand they are package-level names like any other
+				nm = Pick(r, []string{"_Ciconst_X", "_Cvar_v", "_cgo_x", "_K", "__"})
+			}
 			if used[nm] {
 				continue
 			}
@@ -418,6 +429,9 @@ func genTables(r *Rng) *tablesCase {
 			c.Decls = append(c.Decls, LDecl{Kind: Pick(r, []string{"const", "var"}), Name: nm})
 		case 4:
 			nm := "F" + Pick(r, names)
+			if r.Chance(12) {
+				nm = Pick(r, []string{"_Cfunc_f", "_C2func_g", "_Cgo_use", "_f"})
+			}
 			if used[nm] {
 				continue
 			}
